@@ -16,6 +16,7 @@ RULE = (
     "fast_pred_var, likelihood in {gauss, fixed}, seed); distinct = cell without seed; non-trivial iff >=1 observation is missing and >=1 observed"
     "; pass 6: the policies together with linear means, fixed+learned noise, linear / KISS-GP / RFF kernels and iterative solves ('mask' only)"
     "; pass 7: objective on another target tensor than the stored one; policy orders starting with 'ignore'; the deprecated GaussianLikelihoodWithMissingObs (terms and gradients of the observed entries alone, under any policy setting)"
+    "; pass 8: the same target buffer refilled in place with another missing pattern, the same likelihood object called again"
 )
 REQUIRED = ["posterior_mean", "posterior_covar", "mll_unnormalised", "expected_log_prob", "log_marginal", "no_nan_leaves", "order_independent"]
 ASSUMPTIONS = [
